@@ -6,6 +6,7 @@ package main
 // UntypedInt (unbounded mathematical integer).
 
 import (
+	big2 "math/big"
 	"strconv"
 	"fmt"
 	"go/types"
@@ -506,6 +507,103 @@ func init() {
 		}
 		panic(engineAbort{fmt.Sprintf("strconv.Format* of %T", args[0])})
 	}
+	// encoding/binary fixed-width integers: a symbolic value becomes n fresh byte variables tied to it by one
+	// linear equation (instead of shift/mask terms), and reading symbolic bytes back is the same linear sum
+	putN := func(n int, big bool) externalFn {
+		return func(fr *frame, args []value) value {
+			b := args[1].([]value)
+			if len(b) < n {
+				panic(targetPanic{v: fr.i.runtimeError("index out of range")})
+			}
+			v := args[2]
+			if sv, ok := v.(sym); ok {
+				st := fr.i.needState("binary.Put")
+				var parts []string
+				for k := 0; k < n; k++ { // k = significance
+					t := st.fresh(fmt.Sprintf("be%d", k), "Int")
+					st.addPC(rangeConstraint(types.Uint8, t))
+					idx := k
+					if big {
+						idx = n - 1 - k
+					}
+					b[idx] = sym{t, types.Uint8}
+					if k == 0 {
+						parts = append(parts, t)
+					} else {
+						parts = append(parts, "(* "+pow2[8*k].String()+" "+t+")")
+					}
+				}
+				st.addPC("(= " + sv.t + " (+ " + strings.Join(parts, " ") + "))")
+				return nil
+			}
+			x := uint64(asInt64(v))
+			if u, ok := v.(uint64); ok {
+				x = u
+			}
+			for k := 0; k < n; k++ {
+				idx := k
+				if big {
+					idx = n - 1 - k
+				}
+				b[idx] = uint8(x >> (8 * uint(k)))
+			}
+			return nil
+		}
+	}
+	getN := func(n int, big bool, kind types.BasicKind) externalFn {
+		return func(fr *frame, args []value) value {
+			b := args[1].([]value)
+			if len(b) < n {
+				panic(targetPanic{v: fr.i.runtimeError("index out of range")})
+			}
+			allc := true
+			var x uint64
+			var parts []string
+			for k := 0; k < n; k++ {
+				idx := k
+				if big {
+					idx = n - 1 - k
+				}
+				switch bv := b[idx].(type) {
+				case uint8:
+					x |= uint64(bv) << (8 * uint(k))
+					if bv != 0 {
+						parts = append(parts, new(big2.Int).Mul(pow2[8*k], big2.NewInt(int64(bv))).String())
+					}
+				default:
+					allc = false
+					if k == 0 {
+						parts = append(parts, termOf(bv))
+					} else {
+						parts = append(parts, "(* "+pow2[8*k].String()+" "+termOf(bv)+")")
+					}
+				}
+			}
+			if allc {
+				switch kind {
+				case types.Uint64:
+					return x
+				case types.Uint32:
+					return uint32(x)
+				}
+				return uint16(x)
+			}
+			if len(parts) == 1 {
+				return sym{parts[0], kind}
+			}
+			return sym{"(+ " + strings.Join(parts, " ") + ")", kind}
+		}
+	}
+	e["(encoding/binary.bigEndian).PutUint64"] = putN(8, true)
+	e["(encoding/binary.bigEndian).PutUint32"] = putN(4, true)
+	e["(encoding/binary.bigEndian).PutUint16"] = putN(2, true)
+	e["(encoding/binary.littleEndian).PutUint64"] = putN(8, false)
+	e["(encoding/binary.littleEndian).PutUint32"] = putN(4, false)
+	e["(encoding/binary.bigEndian).Uint64"] = getN(8, true, types.Uint64)
+	e["(encoding/binary.bigEndian).Uint32"] = getN(4, true, types.Uint32)
+	e["(encoding/binary.bigEndian).Uint16"] = getN(2, true, types.Uint16)
+	e["(encoding/binary.littleEndian).Uint64"] = getN(8, false, types.Uint64)
+	e["(encoding/binary.littleEndian).Uint32"] = getN(4, false, types.Uint32)
 	e["strconv.FormatUint"] = fmtInt
 	e["strconv.FormatInt"] = fmtInt
 	e["strconv.Itoa"] = fmtInt
